@@ -412,3 +412,123 @@ pub fn c12<T: Full>(g: &mut Gen, b: &Budget, out: &mut Sink) {
         }
     }
 }
+
+// ------------------------------------------------------------------ C13: the io facade, op by op
+
+fn io_err(e: &Error) -> String {
+    format!("({})", show_err(e))
+}
+
+/// random operation sequences on `&[u8]`, `&mut [u8]` and `Vec<u8>` through `borsh::io`
+pub fn io_ops(g: &mut Gen, n: usize, out: &mut Sink) {
+    for _ in 0..n {
+        // reader
+        let dl = g.below(12) as usize;
+        let data = g.bytes(dl);
+        let k = 1 + g.below(10) as usize;
+        let mut ops = Vec::new();
+        let mut obs = Vec::new();
+        let mut r: &[u8] = &data;
+        for _ in 0..k {
+            let len = match g.below(6) {
+                0 => 0,
+                1 => 1,
+                _ => g.below(8) as usize,
+            };
+            let mut buf = vec![0u8; len];
+            if g.chance(1, 2) {
+                ops.push(format!("(read {})", len));
+                let res = if g.chance(1, 2) { r.read(&mut buf) } else { (&mut r).read(&mut buf) };
+                match res {
+                    Ok(m) => obs.push(format!("(got {})", hex(&buf[..m]))),
+                    Err(e) => obs.push(io_err(&e)),
+                }
+            } else {
+                ops.push(format!("(rex {})", len));
+                let res = if g.chance(1, 2) { r.read_exact(&mut buf) } else { (&mut r).read_exact(&mut buf) };
+                match res {
+                    Ok(()) => obs.push(format!("(got {})", hex(&buf))),
+                    Err(e) => {
+                        // the position after a failed read_exact is unspecified by std: stop here
+                        obs.push(io_err(&e));
+                        break;
+                    }
+                }
+            }
+        }
+        let failed = obs.last().map(|o| o.starts_with("(err")).unwrap_or(false);
+        let rest = if failed { "*".to_string() } else { hex(r) };
+        out.case(&format!("ioR {} {} (ops {})", IO, hex(&data), ops.join(" ")), &format!("({}) rest={}", obs.join(" "), rest));
+        // fixed slice writer
+        let cap = g.below(10) as usize;
+        let mut buf = vec![0u8; cap];
+        let mut ops = Vec::new();
+        let mut obs = Vec::new();
+        let room;
+        {
+            let mut w: &mut [u8] = &mut buf[..];
+            for _ in 0..(1 + g.below(8)) {
+                let bl = g.below(6) as usize;
+                let bs = g.bytes(bl);
+                match g.below(5) {
+                    0 | 1 => {
+                        ops.push(format!("(w {})", hex(&bs)));
+                        match if g.chance(1, 2) { w.write(&bs) } else { (&mut w).write(&bs) } {
+                            Ok(m) => obs.push(format!("(n {})", m)),
+                            Err(e) => obs.push(io_err(&e)),
+                        }
+                    }
+                    2 | 3 => {
+                        ops.push(format!("(wa {})", hex(&bs)));
+                        match if g.chance(1, 2) { w.write_all(&bs) } else { (&mut w).write_all(&bs) } {
+                            Ok(()) => obs.push("unit".into()),
+                            Err(e) => obs.push(io_err(&e)),
+                        }
+                    }
+                    _ => {
+                        ops.push("fl".into());
+                        match w.flush() {
+                            Ok(()) => obs.push("unit".into()),
+                            Err(e) => obs.push(io_err(&e)),
+                        }
+                    }
+                }
+            }
+            room = w.len();
+        }
+        out.case(&format!("ioW {} {} (ops {})", IO, cap, ops.join(" ")),
+                 &format!("({}) written={} room={}", obs.join(" "), hex(&buf[..cap - room]), room));
+        // vec writer
+        let mut v: Vec<u8> = Vec::new();
+        let mut ops = Vec::new();
+        let mut obs = Vec::new();
+        for _ in 0..(1 + g.below(6)) {
+            let bl = g.below(6) as usize;
+                let bs = g.bytes(bl);
+            match g.below(5) {
+                0 | 1 => {
+                    ops.push(format!("(w {})", hex(&bs)));
+                    match Write::write(&mut v, &bs) {
+                        Ok(m) => obs.push(format!("(n {})", m)),
+                        Err(e) => obs.push(io_err(&e)),
+                    }
+                }
+                2 | 3 => {
+                    ops.push(format!("(wa {})", hex(&bs)));
+                    match Write::write_all(&mut v, &bs) {
+                        Ok(()) => obs.push("unit".into()),
+                        Err(e) => obs.push(io_err(&e)),
+                    }
+                }
+                _ => {
+                    ops.push("fl".into());
+                    match Write::flush(&mut v) {
+                        Ok(()) => obs.push("unit".into()),
+                        Err(e) => obs.push(io_err(&e)),
+                    }
+                }
+            }
+        }
+        out.case(&format!("ioV {} (ops {})", IO, ops.join(" ")), &format!("({}) written={}", obs.join(" "), hex(&v)));
+    }
+}
